@@ -684,7 +684,24 @@ class NativeCtx:
 
     def invoke(self, target, *args, **kwargs):
         f = resolve(target) if isinstance(target, str) else (getattr(target[0], target[1]) if isinstance(target, tuple) else target)
-        return f(*args, **kwargs)
+        if self._call_depth > 0:
+            return f(*args, **kwargs)
+        # set-up code of a contract runs real code too: the same time limit as for c.call (a change that makes it loop for ever
+        # must not block the driver)
+        import signal
+
+        def on_alarm(signum, frame):
+            self.hung = True
+            raise Deadlock('native call (set-up of the contract) still running after %d s' % self.call_timeout)
+        old = signal.signal(signal.SIGALRM, on_alarm)
+        signal.alarm(self.call_timeout)
+        self._call_depth += 1
+        try:
+            return f(*args, **kwargs)
+        finally:
+            self._call_depth -= 1
+            signal.alarm(0)
+            signal.signal(signal.SIGALRM, old)
 
     def invoke_catch(self, target, *args, **kwargs):
         try:
@@ -872,6 +889,8 @@ def run_job(job):
             c.fn(ctx)
         except PreconditionFailed as e:
             rec['error'] = 'precondition-not-met: %s' % e
+        except Deadlock as e:
+            rec['error'] = 'contract-run-raised Deadlock: %s' % e
         except Exception as e:
             rec['error'] = 'contract-run-raised %s: %s\n%s' % (type(e).__name__, e, traceback.format_exc()[-1500:])
         finally:
@@ -879,7 +898,8 @@ def run_job(job):
         rec['ensures'] = [list(r) for r in ctx.results]
         if getattr(ctx, 'hung', False):
             hangs[c.name] = hangs.get(c.name, 0) + 1
-        if getattr(ctx, 'hung', False) and item.get('sample_seed') is not None and not (rec['error'] or '').startswith('contract-run-raised'):
+        if getattr(ctx, 'hung', False) and item.get('sample_seed') is not None and not (
+                (rec['error'] or '').startswith('contract-run-raised') and 'Deadlock' not in (rec['error'] or '')):
             # bounded stand-in only (the contract is already undecided): a call on a small sampled input that is still running after
             # the time limit is reported as a failing sample, whatever the contract goes on to require - and the remaining
             # samples of this contract are skipped instead of waiting for each of them
